@@ -13,12 +13,11 @@ from ..core import Violation
 
 ID = "C18"
 LEVEL = "exploration"
-RULE = ("Hypothesis draws a nested mapping (depth<=4, fan-out 1-5, keys from an alphabet incl. "
-        "'' and non-ASCII that is disjoint from the separator alphabet, leaf payloads int/str/"
-        "None/list/schema/..., optional on any subset of leaves, optional top-level ...: ...), "
-        "a 1-3 char separator and a permutation of the flat keys; distinct = canonical JSON of "
-        "the case; non-trivial = depth>=2 and some sibling group is split (non-adjacent) by the "
-        "permutation")
+RULE = ("Hypothesis draws a nested mapping (depth<=4, fan-out 1-5, keys from an alphabet incl. '' and non-ASCII that is "
+        "disjoint from the separator alphabet, leaf payloads int/str/None/list/schema/.../bool, optional on any subset of "
+        "leaves - an optional leaf may share its name with a sibling branch -, optional top-level ...: ...), a 1-3 char "
+        "separator and a permutation of the flat keys; distinct = canonical JSON of the case; non-trivial = depth>=2 and "
+        "some sibling group is split (non-adjacent) by the permutation")
 ASSUMPTIONS = [
     "separator characters never occur inside keys (otherwise the flat form is ambiguous)",
     "leaf payloads are never dicts and inner dicts are never empty (neither has a flat form)",
